@@ -221,9 +221,11 @@ pub enum FaultKind {
 pub struct Fault {
     pub dir: char, // sender side: 'A' (A>B) or 'B' (B>A)
     pub ctype: u8,
-    pub ord: u32, // n-th packet of that direction carrying a chunk of `ctype` (1-based)
+    pub ord: u32, // n-th packet of that direction carrying a chunk of `ctype` (1-based);
+    // for DATA with `tsn_rel`: n-th transmission of that TSN
+    pub tsn_rel: Option<u32>, // DATA only: TSN relative to the sender's initial TSN
     pub kind: FaultKind,
-    pub after: Option<(u8, u32)>, // release the copy right after this packet of the same direction
+    pub after: Option<(u8, u32, Option<u32>)>, // release the copy right after this packet of the same direction
     pub used: bool,
 }
 
@@ -254,12 +256,18 @@ pub fn fault_from_json(v: &Value) -> Fault {
     };
     let after = match v["ak"].as_str() {
         Some("NONE") | None => None,
-        Some(k) => Some((ctype_of(k), v["ao"].as_u64().unwrap_or(0) as u32)),
+        Some(k) => {
+            let t = ctype_of(k);
+            let rel = if t == CT_DATA { v.get("at").and_then(|x| x.as_u64()).map(|x| x as u32) } else { None };
+            Some((t, v["ao"].as_u64().unwrap_or(0) as u32, rel))
+        }
     };
+    let ctype = ctype_of(v["k"].as_str().unwrap());
     Fault {
         dir: v["dir"].as_str().unwrap().chars().next().unwrap(),
-        ctype: ctype_of(v["k"].as_str().unwrap()),
+        ctype,
         ord: v["o"].as_u64().unwrap() as u32,
+        tsn_rel: if ctype == CT_DATA { v.get("t").and_then(|x| x.as_u64()).map(|x| x as u32) } else { None },
         kind,
         after,
         used: false,
@@ -271,12 +279,14 @@ struct Held {
     datagram: Vec<u8>,
     view: Value,
     dir: char,
-    after: Option<(u8, u32)>,
+    after: Option<(u8, u32, Option<u32>)>,
 }
 
 struct ProxyState {
     faults: Vec<Fault>,
     cnt: HashMap<(char, u8), u32>,
+    cnt_tsn: HashMap<(char, u32), u32>, // transmissions seen per (direction, relative TSN)
+    itsn: HashMap<char, u32>,           // initial TSN announced by each side (INIT / INIT-ACK)
     held: Vec<Held>,
     next_id: u64,
     faults_applied: u32,
@@ -403,6 +413,34 @@ impl Proxy {
                 *c += 1;
                 ords.insert(t.to_string(), (*c).into());
             }
+            for c in &pv.chunks {
+                if matches!(c.ctype, CT_INIT | CT_INIT_ACK)
+                    && let Some(t) = c.itsn
+                {
+                    st.itsn.entry(dir).or_insert(t);
+                }
+            }
+            // relative TSNs of the DATA chunks of this packet and how often each has been sent
+            let base = st.itsn.get(&dir).copied();
+            let mut rels: Vec<(u32, u32)> = Vec::new();
+            if let Some(base) = base {
+                for c in &pv.chunks {
+                    if c.ctype == CT_DATA
+                        && let Some(t) = c.tsn
+                    {
+                        let rel = t.wrapping_sub(base);
+                        let n = st.cnt_tsn.entry((dir, rel)).or_insert(0);
+                        *n += 1;
+                        rels.push((rel, *n));
+                    }
+                }
+            }
+            let hits = |ctype: u8, ord: u32, rel: Option<u32>, st: &ProxyState| -> bool {
+                match (ctype, rel) {
+                    (CT_DATA, Some(r)) => rels.iter().any(|(x, n)| *x == r && *n == ord),
+                    _ => types.contains(&ctype) && st.cnt[&(dir, ctype)] == ord,
+                }
+            };
             let view = json!({
                 "id": id, "len": pv.len, "crc_ok": pv.crc_ok, "well_formed": pv.well_formed,
                 "vtag": pv.vtag, "sport": pv.sport, "dport": pv.dport, "ord": ords,
@@ -410,7 +448,7 @@ impl Proxy {
             });
             let mut hit = None;
             for (i, f) in st.faults.iter().enumerate() {
-                if !f.used && f.dir == dir && types.contains(&f.ctype) && st.cnt[&(dir, f.ctype)] == f.ord {
+                if !f.used && f.dir == dir && types.contains(&f.ctype) && hits(f.ctype, f.ord, f.tsn_rel, &st) {
                     hit = Some(i);
                     break;
                 }
@@ -438,7 +476,7 @@ impl Proxy {
                     let h = &st.held[k];
                     let is_self = hit == Some(h.fault_idx);
                     let due = match h.after {
-                        Some((t, o)) => h.dir == dir && types.contains(&t) && st.cnt[&(dir, t)] == o,
+                        Some((t, o, rel)) => h.dir == dir && types.contains(&t) && hits(t, o, rel, &st),
                         None => false,
                     };
                     if due && !is_self {
@@ -728,7 +766,15 @@ pub async fn build_pair(cfg: &StackCfg, chans: &[ChanSpec], faults: Vec<Fault>) 
         pb: pb.clone(),
         addr_a: sa.local_addr().unwrap(),
         addr_b: sb.local_addr().unwrap(),
-        state: Mutex::new(ProxyState { faults, cnt: HashMap::new(), held: Vec::new(), next_id: 0, faults_applied: 0 }),
+        state: Mutex::new(ProxyState {
+            faults,
+            cnt: HashMap::new(),
+            cnt_tsn: HashMap::new(),
+            itsn: HashMap::new(),
+            held: Vec::new(),
+            next_id: 0,
+            faults_applied: 0,
+        }),
         dtls_a: Mutex::new(None),
         dtls_b: Mutex::new(None),
         max_hold: Duration::from_millis(cfg.max_hold_ms),
